@@ -1,6 +1,8 @@
 package main
 
 import (
+	"fmt"
+	"net"
 	"strconv"
 	"strings"
 
@@ -42,7 +44,7 @@ func execOp(a []string) string {
 }
 
 var opNames = []string{"streq", "contains", "beginsWith", "endsWith", "within", "eq", "ge", "gt", "le", "lt",
-	"validateUrlEncoding", "validateUtf8Encoding", "validateByteRange", "pm", "unconditionalMatch", "noMatch"}
+	"validateUrlEncoding", "validateUtf8Encoding", "validateByteRange", "pm", "unconditionalMatch", "noMatch", "ipMatch"}
 
 func numLike(r *gen.R) string {
 	switch r.Intn(12) {
@@ -83,6 +85,160 @@ func rangeText(r *gen.R) string {
 		}
 	}
 	return strings.Join(parts, ",")
+}
+
+// ---- @ipMatch: addresses in every spelling Go's net package reads, networks around them
+
+func ipV4(r *gen.R) [4]byte {
+	switch r.Intn(4) {
+	case 0:
+		return [4]byte{10, byte(r.Intn(4)), byte(r.Intn(256)), byte(r.Intn(256))}
+	case 1:
+		return [4]byte{192, 168, byte(r.Intn(3)), byte(r.Intn(256))}
+	default:
+		return [4]byte{byte(r.Intn(256)), byte(r.Intn(256)), byte(r.Intn(256)), byte(r.Intn(256))}
+	}
+}
+
+func ipV4Text(r *gen.R, a [4]byte) string {
+	s := fmt.Sprintf("%d.%d.%d.%d", a[0], a[1], a[2], a[3])
+	switch r.Intn(14) {
+	case 0:
+		return fmt.Sprintf("::ffff:%d.%d.%d.%d", a[0], a[1], a[2], a[3])
+	case 1:
+		return fmt.Sprintf("::ffff:%02x%02x:%02x%02x", a[0], a[1], a[2], a[3])
+	case 2:
+		return fmt.Sprintf("0:0:0:0:0:ffff:%d.%d.%d.%d", a[0], a[1], a[2], a[3])
+	case 3:
+		return fmt.Sprintf("0:0:0:0:0:FFFF:%x:%x", int(a[0])<<8|int(a[1]), int(a[2])<<8|int(a[3]))
+	case 4:
+		return fmt.Sprintf("%d.%d.%d.0%d", a[0], a[1], a[2], a[3]) // leading zero: rejected
+	case 5:
+		return s + r.Pick(".", " ", ".1", "%eth0", "/")
+	}
+	return s
+}
+
+func ipV6(r *gen.R) [16]byte {
+	var b [16]byte
+	switch r.Intn(4) {
+	case 0:
+		copy(b[:], []byte{0x20, 0x01, 0x0d, 0xb8})
+		b[15] = byte(r.Intn(256))
+		b[7] = byte(r.Intn(3))
+	case 1:
+		b[15] = byte(r.Intn(3)) // ::, ::1, ::2
+	case 2:
+		copy(b[:], []byte{0xfe, 0x80})
+		for i := 8; i < 16; i++ {
+			b[i] = byte(r.Intn(256))
+		}
+	default:
+		for i := range b {
+			b[i] = byte(r.Intn(256))
+		}
+	}
+	return b
+}
+
+func ipV6Text(r *gen.R, b [16]byte) string {
+	switch r.Intn(8) {
+	case 0:
+		// full form
+		var parts []string
+		for i := 0; i < 16; i += 2 {
+			parts = append(parts, fmt.Sprintf("%x", int(b[i])<<8|int(b[i+1])))
+		}
+		return strings.Join(parts, ":")
+	case 1:
+		var parts []string
+		for i := 0; i < 16; i += 2 {
+			parts = append(parts, fmt.Sprintf("%04X", int(b[i])<<8|int(b[i+1])))
+		}
+		return strings.Join(parts, ":")
+	case 2:
+		return net.IP(b[:]).String() + r.Pick("%eth0", ":", "::", ":1", "g", " ")
+	case 3:
+		// trailing dotted quad
+		var parts []string
+		for i := 0; i < 12; i += 2 {
+			parts = append(parts, fmt.Sprintf("%x", int(b[i])<<8|int(b[i+1])))
+		}
+		return strings.Join(parts, ":") + fmt.Sprintf(":%d.%d.%d.%d", b[12], b[13], b[14], b[15])
+	}
+	return net.IP(b[:]).String()
+}
+
+func ipArgVal(r *gen.R) (string, string) {
+	k := 1 + r.Intn(3)
+	var nets []string
+	var base4 [][4]byte
+	var base6 [][16]byte
+	for i := 0; i < k; i++ {
+		if r.Chance(0.6) {
+			a := ipV4(r)
+			base4 = append(base4, a)
+			t := ipV4Text(r, a)
+			switch r.Intn(6) {
+			case 0:
+			case 1:
+				t += "/32"
+			case 2:
+				if strings.Contains(t, ":") {
+					t += "/" + strconv.Itoa(96+r.Intn(33))
+				} else {
+					t += "/" + strconv.Itoa(r.Intn(33))
+				}
+			case 3:
+				t += r.Pick("/33", "/129", "/-1", "/", "/08", "/8 ", "/x", "/99999999")
+			default:
+				if strings.Contains(t, ":") {
+					t += "/" + strconv.Itoa(r.Intn(129))
+				} else {
+					t += "/" + strconv.Itoa(8*(1+r.Intn(4)))
+				}
+			}
+			nets = append(nets, t)
+		} else {
+			b := ipV6(r)
+			base6 = append(base6, b)
+			t := ipV6Text(r, b)
+			switch r.Intn(4) {
+			case 0:
+			case 1:
+				t += "/128"
+			default:
+				t += "/" + strconv.Itoa(r.Intn(129))
+			}
+			nets = append(nets, t)
+		}
+	}
+	sep := r.Pick(",", ", ", " ,", ",,")
+	arg := strings.Join(nets, sep)
+	// the value: near one of the networks, in any spelling, or junk
+	var val string
+	switch {
+	case len(base4) > 0 && r.Chance(0.55):
+		a := base4[r.Intn(len(base4))]
+		if r.Chance(0.5) {
+			a[3] ^= byte(1 << uint(r.Intn(8)))
+		}
+		if r.Chance(0.3) {
+			a[r.Intn(3)] ^= byte(1 << uint(r.Intn(8)))
+		}
+		val = ipV4Text(r, a)
+	case len(base6) > 0 && r.Chance(0.7):
+		b := base6[r.Intn(len(base6))]
+		if r.Chance(0.6) {
+			b[r.Intn(16)] ^= byte(1 << uint(r.Intn(8)))
+		}
+		val = ipV6Text(r, b)
+	case r.Chance(0.5):
+		val = ipV4Text(r, ipV4(r))
+	default:
+		val = r.Pick("", "::", "1.2.3", "1.2.3.4.5", "256.1.1.1", "1::2::3", "::ffff:1.2.3", "12345::", "localhost", ":::", "1:2:3:4:5:6:7:8:9", "::1.2.3.4", "1:2:3:4:5:6:1.2.3.4", "1:2:3:4:5:1.2.3.4")
+	}
+	return arg, val
 }
 
 func init() {
@@ -154,6 +310,8 @@ func init() {
 					}
 				}
 				val = sb.String()
+			case "ipMatch":
+				arg, val = ipArgVal(c.r)
 			case "validateUtf8Encoding", "unconditionalMatch", "noMatch":
 				val = c.r.Bytes(6)
 			default:
